@@ -272,6 +272,9 @@ func runAliasHTTP(f []string) string {
 		if p[5] == "1" {
 			r["preprocessor"] = map[string]any{"mapping": map[string]string{"u": "source.users[next]"}}
 		}
+		if len(p) > 6 && p[6] == "1" {
+			r["postprocessors"] = []map[string]any{{"type": "assert/response", "body": []string{`"result":"ok"`}}}
+		}
 		reqs = append(reqs, r)
 	}
 	scens := scenList(f[5], names)
